@@ -5,10 +5,12 @@ package bitcoin_reader
 import (
 	"context"
 	"fmt"
+	"io"
 	"net"
 	"sort"
 	"strings"
 
+	"github.com/tokenized/pkg/wire"
 	"github.com/tokenized/threads"
 )
 
@@ -71,4 +73,35 @@ func (m *NodeManager) VerifAddNode(node *BitcoinNode) {
 // VerifMarkStartupDelayComplete ends the startup delay without waiting for it.
 func (m *NodeManager) VerifMarkStartupDelayComplete(ctx context.Context) {
 	m.markStartupDelayComplete(ctx)
+}
+
+// VerifOpenOutgoing opens the outgoing message queue the way run does, so that requests can be
+// issued on a node whose connection threads are not running.
+func (n *BitcoinNode) VerifOpenOutgoing() {
+	n.outgoingMsgChannel.Open(1000)
+}
+
+// VerifSetInterrupt sets the interrupt channel that run would set.
+func (n *BitcoinNode) VerifSetInterrupt(interrupt <-chan interface{}) {
+	n.interrupt = interrupt
+}
+
+// VerifHandleBlock is the real handler of an incoming "block" message, reading from r.
+func (n *BitcoinNode) VerifHandleBlock(ctx context.Context, header *wire.MessageHeader,
+	r io.Reader) error {
+	return n.handleBlock(ctx, header, r)
+}
+
+// VerifStopBlock performs the part of run that follows the connection threads' stop: mark the
+// node not ready and call the registered block "on stop" function. (A copy of those lines of run;
+// the real run is exercised as a whole by the message-level checks.)
+func (n *BitcoinNode) VerifStopBlock(ctx context.Context) {
+	n.Lock()
+	n.isReady.Store(false)
+	blockOnStop := n.blockOnStop
+	n.Unlock()
+
+	if blockOnStop != nil {
+		blockOnStop(ctx)
+	}
 }
